@@ -73,7 +73,7 @@ if __name__ == '__main__':
     prog = Program(irf)
     extra = [a for a in sys.argv[2:] if a.endswith('.go') or a.endswith('.spec')]
     keys = [a for a in sys.argv[2:] if a not in extra]
-    contracts = load_contracts(extra=extra, prog=prog)
+    contracts = load_contracts(repo=os.environ.get('VERIF_REPO', '/repo'), extra=extra, prog=prog)
     res = verify_keys(prog, contracts, [prog.resolve(k) for k in keys])
     bad = [r for r in res if r['verdict'] != 'unsat']
     print('%d obligations, %d not discharged' % (len(res), len(bad)))
